@@ -242,7 +242,7 @@ def tlc_trace_seq(module, cfg, trace, timeout=1800, extra_env=None):
         raise ToolError("TLC timed out validating " + trace)
     res = parse_tlc(out)
     matched = None
-    mm = re.search(r"TRACE-MATCHED (\d+)", out)
+    mm = re.search(r"TRACE-MATCHED\", (\d+)", out)
     if mm:
         matched = int(mm.group(1))
     accepted = res["ok"] and not res["violated"] and "TRACE-REJECTED" not in out
